@@ -327,6 +327,9 @@ def gen_config(rng, target):
                min_freq_mod=rng.choice([None, None, 0.05, 0.1, 0.2, 0]))      # 0: an explicit "no minimum" (falsy, not None)
     if target != "continuous":
         cfg["sort_by"] = rng.choice(["tschuprowt", "cramerv"])
+    # carvers: the ordinal features listed among the qualitative ones as well, a name given twice (the carvers deduplicate)
+    if rng.random() < 0.08:
+        cfg["dup_lists"] = True
     # user-chosen markers for missing / default values (`**kwargs` of every class), 15% of the configurations
     if rng.random() < 0.15:
         cfg["markers"] = rng.choice([{"str_nan": "MISSING"}, {"str_default": "RARE"}, {"str_nan": "MISSING", "str_default": "RARE"},
@@ -339,8 +342,12 @@ def make_carver(ds, cfg, copy=True, n_jobs=1):
     from AutoCarver import BinaryCarver, ContinuousCarver, MulticlassCarver
     from AutoCarver.discretizers import GroupedList
     vo = {k: GroupedList(list(v)) for k, v in ds["values_orders"].items()}
-    kw = dict(min_freq=cfg["min_freq"], quantitative_features=list(ds["quantitative"]),
-              qualitative_features=list(ds["qualitative"]), ordinal_features=list(ds["ordinal"]),
+    quali, quanti = list(ds["qualitative"]), list(ds["quantitative"])
+    if cfg.get("dup_lists"):
+        quali = quali + list(ds["ordinal"]) + quali[:1]
+        quanti = quanti + quanti[:1]
+    kw = dict(min_freq=cfg["min_freq"], quantitative_features=quanti,
+              qualitative_features=quali, ordinal_features=list(ds["ordinal"]),
               values_orders=vo, max_n_mod=cfg["max_n_mod"], output_dtype=cfg["output_dtype"],
               dropna=cfg["dropna"], copy=copy, verbose=False, n_jobs=n_jobs, **cfg.get("markers", {}))
     if ds["target"] == "binary":
